@@ -85,6 +85,7 @@ type Resp struct {
 	HasView    bool       `json:"hasView"`
 	Body       j.B        `json:"body"`
 	Persisted  int        `json:"persisted"`
+	Override   int        `json:"override"` // X-Http-Status-Code-Override of the reply (0 if absent)
 	Done       bool       `json:"done"`
 	Rewritten  int        `json:"rewritten"`
 	ObjectSize int        `json:"objectSize"`
@@ -162,6 +163,7 @@ type Op struct {
 	Form  string `json:"form,omitempty"`  // api | download | public
 	Slash bool   `json:"slash,omitempty"` // send '/' of the object name unescaped in the URL path
 
+	No308   bool  `json:"no308"` // ResumablePut: send X-Guploader-No-308: yes
 	Parts   []Op  `json:"parts"` // Batch: the sub-requests (Delete, GetMeta, GetBucket, Patch), each with its Content-ID
 	Cid     j.B   `json:"cid"`
 	BadBody bool  `json:"badBody"`
@@ -189,7 +191,7 @@ var opFields = map[string][]string{
 	"DeleteBucket":   {"b"},
 	"Upload":         {"b", "n", "proto", "gzip", "content", "md5", "decl", "attrs", "meta", "conds", "gen"},
 	"ResumableStart": {"b", "n", "decl", "attrs", "meta", "conds", "id"},
-	"ResumablePut":   {"id", "ref", "lo", "total", "data", "md5full", "gen", "method"},
+	"ResumablePut":   {"id", "ref", "lo", "total", "data", "md5full", "gen", "method", "no308"},
 	"GetMedia":       {"b", "n", "form", "slash"},
 	"GetMeta":        {"b", "n", "slash", "cid"},
 	"Patch":          {"b", "n", "attrs", "meta", "conds", "badBody", "junk", "cid"},
